@@ -137,15 +137,26 @@ Theorem C05_in_ring_swap_xy : forall p r, in_ring (swap_xy p) (map swap_xy r) = 
 Proof. exact in_ring_swap. Qed.
 Print Assumptions C05_in_ring_swap_xy.
 
-(* point location does not depend on where a closed ring starts, nor on its direction.
-   (Verdict-level invariance under ring rotation / reversal is NOT proved: it is executed on the specification and on the
-   library for every derived case of the correspondence.) *)
-Theorem C05_in_ring_rotate : forall k p r, closed r = true -> in_ring p (rotate_ring k r) = in_ring p r.
+(* FULL STATEMENT (not proved): for a closed ring r of g, replacing r by rotate_ring k r or by reverse_ring r changes neither
+   valid_flag flag g nor simple_geom g.  MISSING: the segment pairs of the rotated / reversed ring are the same unordered pairs
+   with the same cyclic adjacency, and seg_int is symmetric in its two segments and in the direction of each - an index
+   argument over `pairs (index_from 0 (segs r))` that is not done.  PROVED: the part that goes through point location (rules
+   2, 3, 7 and `loc`): in_ring does not depend on the start vertex or the direction of the ring.  The full statement is executed
+   on the specification and on the library for every derived case of the correspondence. *)
+Theorem C05_ring_rotation_partial : forall k p r, closed r = true -> in_ring p (rotate_ring k r) = in_ring p r.
 Proof. exact in_ring_rotate. Qed.
-Print Assumptions C05_in_ring_rotate.
-Theorem C05_in_ring_reverse : forall p r, in_ring p (reverse_ring r) = in_ring p r.
+Print Assumptions C05_ring_rotation_partial.
+Theorem C05_ring_reversal_partial : forall p r, in_ring p (reverse_ring r) = in_ring p r.
 Proof. exact in_ring_reverse. Qed.
-Print Assumptions C05_in_ring_reverse.
+Print Assumptions C05_ring_reversal_partial.
+
+(* FULL STATEMENT (not proved): valid_geom (GPoly s hs) = true -> forall r in s :: hs, r <> [] -> area2 r <> 0.
+   MISSING: that a simple closed polygon has non-zero signed area (a Jordan-curve type argument).  PROVED: twice the signed area
+   is multiplied by the sign of the map under translation / reflection / axis swap, so "non-zero area" and the side on which
+   rule 4 places the interior are well defined; the full statement is checked on every valid polygon of the correspondence. *)
+Theorem C05_ring_area_partial : forall T Th sg, sim T Th sg -> forall r, area2 (map T r) = sg * area2 r.
+Proof. exact area2_map. Qed.
+Print Assumptions C05_ring_area_partial.
 
 (* ---- non-vacuity ---- *)
 Example ex_rotate : rotate_ring 2 [(0, 0); (4, 0); (4, 4); (0, 4); (0, 0)] = [(4, 4); (0, 4); (0, 0); (4, 0); (4, 4)]
